@@ -160,7 +160,17 @@ def named():
     C = np.zeros((5, 5))
     for a, b, w in [(0, 1, 2), (1, 2, 1), (2, 0, 1), (2, 3, 1), (3, 4, 2), (4, 2, 1)]:
         C[a, b] = w
-    return {'two_triangles_bridge6': A, 'triangle_tail5': B, 'two_dtriangles_shared5': C}
+    P6 = np.zeros((6, 6))          # three pairs; the outer two joined by a weak edge, the middle one heavy
+    for a, b, w in [(0, 1, 1), (2, 3, 5), (4, 5, 1), (1, 4, 0.5)]:
+        P6[a, b] = P6[b, a] = w
+    P5 = np.zeros((5, 5))          # pair - isolated node - pair, pairs joined by a weak edge
+    for a, b, w in [(0, 1, 1), (3, 4, 1), (1, 3, 0.5)]:
+        P5[a, b] = P5[b, a] = w
+    Q6 = np.zeros((6, 6))          # three pairs in a chain of weak edges
+    for a, b, w in [(0, 1, 2), (2, 3, 2), (4, 5, 2), (1, 2, 1), (3, 4, 1)]:
+        Q6[a, b] = Q6[b, a] = w
+    return {'two_triangles_bridge6': A, 'triangle_tail5': B, 'two_dtriangles_shared5': C,
+            'three_pairs6': P6, 'pair_node_pair5': P5, 'pair_chain6': Q6}
 
 
 # ---------------------------------------------------------------------------
